@@ -32,7 +32,14 @@ impl Decibels {
 		if self <= Self::SILENCE {
 			return 0.0;
 		}
-		10.0f32.powf(self.0 / 20.0)
+		let amplitude = 10.0f32.powf(self.0 / 20.0);
+		// levels above ~770 dB overflow to infinity, and infinity times a silent
+		// sample is NaN; saturate at the largest finite amplitude instead
+		if amplitude == f32::INFINITY {
+			f32::MAX
+		} else {
+			amplitude
+		}
 	}
 }
 
